@@ -24,7 +24,7 @@ LEVEL = "exploration"
 TECHNIQUE = "deterministic simulation of the outbound path: bursts routed to real TCP handlers over transports with tiny high-water marks (drain completion seeded), to the real TTY handler on a simulated K-worker pool (effect/completion order seeded) and from the real client connection handler; per-connection output compared with the routed order; one connection optionally stalled for ever"
 RULE = ("scenario = bursts of 1..5 device updates routed back-to-back (same loop iteration) or across iterations to 1-3 TCP connections "
         "and optionally the TTY channel x pool width 2..6 x pool jitter x high-water mark {0,1,64,64Ki} x latency/fragmentation x optional "
-        "stall-for-ever of one connection; plus the client-side handler sending bursts to a stub server; distinct = signature (world, "
+        "stall-for-ever of one connection (the simulated stdout delivers written data to the reader at flush() only); plus the client-side handler sending bursts to a stub server; distinct = signature (world, "
         "burst shapes, K, jitter, hwm, stall target, probes hit); non-trivial = at least one burst of >= 2 messages")
 COMPONENTS = dict(c01.COMPONENTS, real=c01.COMPONENTS["real"] + ["indi.transport.server.tty on SimPool", "aiofiles wrappers"],
                   stub=c01.COMPONENTS["stub"] + ["SimPool (thread pool), stdout SimPipeFile", "raw TCP peers", "stub server for the client-side handler"])
@@ -219,7 +219,10 @@ def execute_server(scen, sim, viol, probes, facts):
             if len(r) != total_routed - probes.get("blob_update_in_burst", 0):
                 viol.append({"clause": "C19.isolated", "detail": f"tty: only {len(r)} of {total_routed} updates were routed to this connection", "facts": facts})
             else:
-                _check_output("tty", stack.stdout_file.text, r, stall == "tty", viol, dict(facts, channel="tty"))
+                # (the flushed part: what is written but still sits in the stream buffer has not reached the reader)
+                _check_output("tty", stack.stdout_file.flushed_text, r, stall == "tty", viol, dict(facts, channel="tty"))
+                if not viol and stack.stdout_file.text != stack.stdout_file.flushed_text and stall == "tty":
+                    probes["tty_stalled_with_unflushed_data"] = 1
         if stall and not viol:
             # the stalled connection must have delayed only itself: checked above by the others being complete
             probes["others_complete_despite_stall"] = 1
